@@ -92,6 +92,10 @@ impl Scenario for Fee {
             for a in &ss {
                 v.push(convert(u, STSEI, *a));
             }
+            // pending stSei requests sit next to the bSei ones in the open batch
+            if s > 1 {
+                v.push(unbond(u, STSEI, s / 2));
+            }
         }
         v
     }
